@@ -17,6 +17,9 @@ use std::panic::{catch_unwind, AssertUnwindSafe};
 mod more;
 #[path = "c17_unproved.rs"]
 mod unproved;
+// D16d: DER-based decoders (attest/cd.rs, cert/x509/cert.rs, cert/x509/csr.rs, cert/der_utils.rs, `der` reading layer)
+#[path = "c17_x509.rs"]
+mod dercodecs;
 
 /// where the last panic happened (recorded by the hook installed in `install_hook`)
 pub static LAST_PANIC: std::sync::Mutex<String> = std::sync::Mutex::new(String::new());
@@ -537,6 +540,9 @@ pub fn run_op(kind: &str, op: &str) -> String {
                 r
             } else if let Some(r) = unproved::run_op(k, op) {
                 r
+            } else if let Some(r) = dercodecs::run_op(k, op) {
+                // D16d
+                r
             } else {
                 "badkind".into()
             }
@@ -981,6 +987,7 @@ pub fn gen(a: &Args) -> String {
     }
     more::gen(&mut r, &mut out, a.thorough, &mut id);
     unproved::gen(&mut r, &mut out, a.thorough, &mut id);
+    dercodecs::gen(&mut r, &mut out, a.thorough, &mut id); // D16d
     out.finish()
 }
 
